@@ -213,7 +213,8 @@ def generate(streams: core.Streams, tier: str) -> dict:
         d.pop("_needs", None)
     docs.update(extra_docs)
     return {
-        "knobs": {"parse_cache": gen.pick(f, [None, None, 1, 2, 256])},
+        "knobs": {"parse_cache": gen.pick(f, [None, None, 1, 2, 256]),
+                  "decorated_pipelines": len(pipelines) >= 2 and gen.chance(s, 0.15)},
         "class_pipelines": class_pipelines,
         "pipelines": pipelines,
         "documents": docs,
@@ -230,7 +231,7 @@ _SCRATCH: str | None = None  # one scratch directory per run, shared by history 
 
 
 class World:
-    def __init__(self, scenario: dict):
+    def __init__(self, scenario: dict, declare_all: bool = False):
         from sigsim import simbackend, world
 
         self.sb = simbackend
@@ -250,6 +251,25 @@ class World:
                 c.backend_processing_pipeline = self.build(cfg["backend"])
             if cfg.get("alt") is not None:
                 c.output_format_processing_pipeline["alt"] = self.build(cfg["alt"])
+        # the user pipelines as functions registered with the @Pipeline decorator (sigma.pipelines.base), the way
+        # plugin packages declare them: the history world declares all of them, a fresh world only the one it uses
+        self.factories: dict[str, Any] = {}
+        if scenario.get("knobs", {}).get("decorated_pipelines") and declare_all:
+            for pid in sorted(scenario["pipelines"]):
+                self._factory(pid)
+
+    def _factory(self, pid: str) -> Any:
+        from sigma.pipelines.base import Pipeline
+
+        if pid not in self.factories:
+            spec = self.sc["pipelines"][pid]
+            self.factories[pid] = Pipeline(lambda spec=spec: self.build(spec))
+        return self.factories[pid]
+
+    def build_named(self, pid: str) -> Any:
+        if self.sc.get("knobs", {}).get("decorated_pipelines"):
+            return self._factory(pid)()
+        return self.build(self.sc["pipelines"][pid])
 
     def close(self) -> None:
         if self.own_scratch:
@@ -281,9 +301,9 @@ class World:
         if pid is None:
             return None
         if not shared:
-            return self.build(self.sc["pipelines"][pid])
+            return self.build_named(pid)
         if pid not in self.pobj:
-            self.pobj[pid] = self.build(self.sc["pipelines"][pid])
+            self.pobj[pid] = self.build_named(pid)
         return self.pobj[pid]
 
     def new_backend(self, op: dict, fresh: bool = False) -> Any:
@@ -374,7 +394,7 @@ def _execute(scenario: dict) -> dict:
                 raise core.HarnessError(f"fresh-world probe failed: {status}: {res}")
             fresh[i] = res
     # ---- history world
-    world = World(scenario)
+    world = World(scenario, declare_all=True)
     log: list[Any] = []
     faults: dict[str, int] = {}
     probes: dict[str, int] = {}
